@@ -1,12 +1,12 @@
 package main
 
 import (
-	"os"
-	"go/constant"
-	"go/types"
 	"fmt"
+	"go/constant"
 	"go/token"
+	"go/types"
 	"net/textproto"
+	"os"
 	"sort"
 	"strings"
 
@@ -2203,74 +2203,74 @@ func extraC06ArgMin(c *Ctx, r *Report) {
 	top := fn
 	n := 0
 	for _, fn := range withHelpers(top, 2) {
-	loops := naturalLoops(fn)
-	fromLookup := func(v ssa.Value) bool {
-		for i := 0; i < 4 && v != nil; i++ {
-			switch x := v.(type) {
-			case *ssa.Lookup:
-				return true
-			case *ssa.Extract:
-				v = x.Tuple
-			case *ssa.Convert:
-				v = x.X
-			default:
-				return false
-			}
-		}
-		return false
-	}
-	eachInstr(fn, func(in ssa.Instruction) {
-		cmp, ok := in.(*ssa.BinOp)
-		if !ok || (cmp.Op != token.LSS && cmp.Op != token.LEQ && cmp.Op != token.GTR && cmp.Op != token.GEQ) || !inLoop(in.Block()) {
-			return
-		}
-		var count, min ssa.Value
-		switch {
-		case fromLookup(cmp.X):
-			count, min = cmp.X, cmp.Y
-		case fromLookup(cmp.Y):
-			count, min = cmp.Y, cmp.X
-		default:
-			return
-		}
-		if _, isK := min.(*ssa.Const); isK {
-			return
-		}
-		n++
-		key := fname(top) + ":running-minimum"
-		updated := false
-		if p, ok := min.(*ssa.Phi); ok {
-			if loop, isHeader := loops[p.Block()]; isHeader {
-				var has func(v ssa.Value, d int) bool
-				has = func(v ssa.Value, d int) bool {
-					if v == nil || d == 0 {
-						return false
-					}
-					if v == count {
-						return true
-					}
-					if q, ok := v.(*ssa.Phi); ok && q != p {
-						for _, e := range q.Edges {
-							if has(e, d-1) {
-								return true
-							}
-						}
-					}
+		loops := naturalLoops(fn)
+		fromLookup := func(v ssa.Value) bool {
+			for i := 0; i < 4 && v != nil; i++ {
+				switch x := v.(type) {
+				case *ssa.Lookup:
+					return true
+				case *ssa.Extract:
+					v = x.Tuple
+				case *ssa.Convert:
+					v = x.X
+				default:
 					return false
 				}
-				for i, e := range p.Edges {
-					if i < len(p.Block().Preds) && loop[p.Block().Preds[i]] && has(e, 4) {
-						updated = true
+			}
+			return false
+		}
+		eachInstr(fn, func(in ssa.Instruction) {
+			cmp, ok := in.(*ssa.BinOp)
+			if !ok || (cmp.Op != token.LSS && cmp.Op != token.LEQ && cmp.Op != token.GTR && cmp.Op != token.GEQ) || !inLoop(in.Block()) {
+				return
+			}
+			var count, min ssa.Value
+			switch {
+			case fromLookup(cmp.X):
+				count, min = cmp.X, cmp.Y
+			case fromLookup(cmp.Y):
+				count, min = cmp.Y, cmp.X
+			default:
+				return
+			}
+			if _, isK := min.(*ssa.Const); isK {
+				return
+			}
+			n++
+			key := fname(top) + ":running-minimum"
+			updated := false
+			if p, ok := min.(*ssa.Phi); ok {
+				if loop, isHeader := loops[p.Block()]; isHeader {
+					var has func(v ssa.Value, d int) bool
+					has = func(v ssa.Value, d int) bool {
+						if v == nil || d == 0 {
+							return false
+						}
+						if v == count {
+							return true
+						}
+						if q, ok := v.(*ssa.Phi); ok && q != p {
+							for _, e := range q.Edges {
+								if has(e, d-1) {
+									return true
+								}
+							}
+						}
+						return false
+					}
+					for i, e := range p.Edges {
+						if i < len(p.Block().Preds) && loop[p.Block().Preds[i]] && has(e, 4) {
+							updated = true
+						}
 					}
 				}
 			}
-		}
-		if updated {
-			r.OK("C06-R9", key, in.Pos(), "the compared value is a loop-carried minimum updated with the candidate's count")
-		} else {
-			r.Bad("C06-R9", key, in.Pos(), "candidates are compared with a value that the loop never updates with the candidate's own count: the scan does not find the minimum (e.g. counts [3 1 2] select the endpoint with 2)")
-		}
-	})
+			if updated {
+				r.OK("C06-R9", key, in.Pos(), "the compared value is a loop-carried minimum updated with the candidate's count")
+			} else {
+				r.Bad("C06-R9", key, in.Pos(), "candidates are compared with a value that the loop never updates with the candidate's own count: the scan does not find the minimum (e.g. counts [3 1 2] select the endpoint with 2)")
+			}
+		})
 	}
 	fn = top
 	if n == 0 {
@@ -3361,7 +3361,6 @@ func extraC13TextVerbatim(c *Ctx, r *Report) {
 		New: "		for i := range anthropicResp.Content {\n			anthropicResp.Content[i].Text = util.TruncateString(anthropicResp.Content[i].Text, 4096)\n		}\n		if respBytes, err := json.Marshal(anthropicResp); err == nil {"})
 }
 
-
 // constTableStrings: v is read from a package-level table (a slice or map literal) whose leaves are all constant
 // strings and which no repo code writes to; returns those strings.
 func constTableStrings(c *Ctx, v ssa.Value) ([]string, bool) {
@@ -3691,8 +3690,8 @@ func extraC14ProfileDecodeFresh(c *Ctx, r *Report) {
 		r.Undecided("C14-R10", "profile-decode", token.NoPos, "no decode into domain.ProfileConfig found")
 	}
 	addMutants(Mutant{Prop: "C14", Name: "profile-decoded-over-shared-template", File: "internal/adapter/registry/profile/loader.go", Rule: "C14-R10",
-		Old: "	var config domain.ProfileConfig\n	if err := yaml.Unmarshal(data, &config); err != nil {",
-		New: "	config := sharedProfileTemplate\n	if err := yaml.Unmarshal(data, &config); err != nil {",
+		Old:   "	var config domain.ProfileConfig\n	if err := yaml.Unmarshal(data, &config); err != nil {",
+		New:   "	config := sharedProfileTemplate\n	if err := yaml.Unmarshal(data, &config); err != nil {",
 		Edits: []Edit{{"internal/adapter/registry/profile/loader.go", "func needsCustomParser(name string) bool {", "var sharedProfileTemplate = func() domain.ProfileConfig {\n	var d domain.ProfileConfig\n	d.API.AnthropicSupport = &domain.AnthropicSupportConfig{MessagesPath: \"/v1/messages\"}\n	return d\n}()\n\nfunc needsCustomParser(name string) bool {"}}})
 }
 
@@ -3793,8 +3792,8 @@ func extraC15AllLinesFolded(c *Ctx, r *Report) {
 		r.Undecided("C15-R8", "forwarding-lines", token.NoPos, "no Header.Values(Via | X-Forwarded-For) in the proxy packages")
 	}
 	addMutants(Mutant{Prop: "C15", Name: "via-fold-stops-at-blank", File: "internal/adapter/proxy/core/common.go", Rule: "C15-R8",
-		Old: "	if via := strings.Join(originalReq.Header.Values(constants.HeaderVia), \", \"); via != \"\" {",
-		New: "	if via := foldLines(originalReq.Header.Values(constants.HeaderVia)); via != \"\" {",
+		Old:   "	if via := strings.Join(originalReq.Header.Values(constants.HeaderVia), \", \"); via != \"\" {",
+		New:   "	if via := foldLines(originalReq.Header.Values(constants.HeaderVia)); via != \"\" {",
 		Edits: []Edit{{"internal/adapter/proxy/core/common.go", "var hopByHopHeaders = []string{", "func foldLines(lines []string) string {\n	out := \"\"\n	for _, l := range lines {\n		if l == \"\" {\n			break\n		}\n		if out != \"\" {\n			out += \", \"\n		}\n		out += l\n	}\n	return out\n}\n\nvar hopByHopHeaders = []string{"}}})
 }
 
